@@ -40,7 +40,7 @@ type c01OpDef struct {
 }
 
 // c01Op indexes c01OpTab (immutable).
-type c01Op uint8
+type c01Op uint16
 
 func c01F(label, n, v string) c01OpDef {
 	return c01OpDef{label: "F(" + label + ")", kind: c01KField, f: HeaderField{Name: n, Value: v}}
@@ -176,6 +176,56 @@ func c01BoundaryOps() (all, strOps, longOps, idxOps []c01OpDef) {
 	return
 }
 
+// ---------------------------------------------------------------------------
+// Static-table alphabet (RFC 7541 Appendix A). The Decoder resolves every
+// index i through one comparison against the static table length (i <= 61:
+// static entry i, else dynamic entry i-61), and the Encoder picks static
+// indexes through two maps (name+value, name). The fields below make the
+// Encoder emit EVERY static index 1..61 - in particular the first (1) and the
+// last (61), whose neighbour 62 is the first dynamic entry - in every
+// representation that carries an index:
+//   - F(name=value) for each of the 61 entries (most values are ""): an exact
+//     match, i.e. the Indexed Header Field i;
+//   - F(name=zz) for each of the 52 distinct names: a name-only match, i.e. a
+//     literal with incremental indexing (after Peer(0): without indexing) whose
+//     name index is the static index the Encoder's name map holds for it;
+//   - S(name=zz) for the same names: a never-indexed literal with that name index.
+// "zz" is the value of no static entry.
+// ---------------------------------------------------------------------------
+
+const c01OtherValue = "zz"
+
+// c01StaticOps returns the op definitions in static-table order (exact match,
+// then - at the last entry of each name - the two name-only matches). Some of
+// them already exist in c01OpTab under the same label (F(:method=GET), ...);
+// init adds only the missing ones.
+func c01StaticOps() (defs []c01OpDef) {
+	for i, e := range c01Static {
+		defs = append(defs, c01F(e.n+"="+e.v, e.n, e.v))
+		if i+1 < len(c01Static) && c01Static[i+1].n == e.n {
+			continue // equal names are adjacent in Appendix A
+		}
+		defs = append(defs, c01F(e.n+"="+c01OtherValue, e.n, c01OtherValue), c01S(e.n+"="+c01OtherValue, e.n, c01OtherValue))
+	}
+	return
+}
+
+// c01IdxClass places a table index found in an accepted block relative to the
+// static/dynamic boundary (vacuity evidence only).
+func c01IdxClass(idx uint64) string {
+	switch {
+	case idx == 1:
+		return "idx:static-first(1)"
+	case idx < 61:
+		return "idx:static-2..60"
+	case idx == 61:
+		return "idx:static-last(61)"
+	case idx == 62:
+		return "idx:dynamic-first(62)"
+	}
+	return "idx:dynamic-above-62"
+}
+
 func c01Labels(ds []c01OpDef) []string {
 	var out []string
 	for _, d := range ds {
@@ -187,15 +237,21 @@ func c01Labels(ds []c01OpDef) []string {
 func init() {
 	all, _, _, _ := c01BoundaryOps()
 	c01OpTab = append(c01OpTab, all...)
-	if len(c01OpTab) > 255 {
-		panic("c01: op table exceeds the uint8 index")
-	}
 	seen := map[string]bool{}
 	for _, d := range c01OpTab {
 		if seen[d.label] {
 			panic("c01: duplicate op label " + d.label)
 		}
 		seen[d.label] = true
+	}
+	for _, d := range c01StaticOps() {
+		if !seen[d.label] { // a few exist above under the same label (and, by construction of the label, the same field)
+			c01OpTab = append(c01OpTab, d)
+			seen[d.label] = true
+		}
+	}
+	if len(c01OpTab) > 65535 {
+		panic("c01: op table exceeds the uint16 index")
 	}
 }
 
